@@ -110,6 +110,31 @@ def gen_stmt(g, env, indent, depth):
         env[v] = "str"
         g.emit(indent, "%s = %s" % (v, str_lit(g)), v)
         return
+    if r <= 6 and g.cond <= 3 and depth < 2 and g.coin(1, 4):
+        # both operands of one binary operation multi-valued, over OVERLAPPING constants, non-commutative operator in
+        # half of the cases: the abstract result is the set of results of ALL operand pairs, (x, y) and (y, x) alike
+        # (seed C09-m3 folded each unordered pair once)
+        g.labels.add("binary_operation_two_multi_valued_operands")
+        g.labels.add("branch")
+        pq = []
+        lo = g.draw(st.integers(0, 6))
+        for _ in range(2):
+            c = "c%d" % g.cond
+            g.cond += 1
+            x = g.fresh("v")
+            k1 = lo + g.draw(st.integers(0, 2))
+            k2 = lo + g.draw(st.integers(0, 2))
+            g.emit(indent, "if %s:" % c)
+            g.emit(indent + 1, "%s = %d" % (x, k1), x)
+            g.emit(indent, "else:")
+            g.emit(indent + 1, "%s = %d" % (x, k2), x, multi=True)
+            env[x] = "int"
+            pq.append(x)
+        v = g.fresh("v")
+        g.labels.add("binary_operation")
+        g.emit(indent, "%s = %s %s %s" % (v, pq[0], g.pick(["-", "-", "+", "*"]), pq[1]), v, multi=True)
+        env[v] = "int"
+        return
     if r <= 6:
         v = g.fresh("v") if g.coin(2, 3) or not w_ints else g.pick(w_ints)
         if v in env:
